@@ -16,6 +16,8 @@ type Chunked struct {
 	FailAt   int   // fail after delivering this many bytes (-1 = never)
 	FailErr  error // the failure
 	FailWith bool  // deliver the failure together with the last good bytes
+	FailOnce bool  // the failure is reported once; afterwards the source carries on delivering (it "recovered")
+	failed   bool
 	pos      int
 	idx      int
 	Reads    int
@@ -25,12 +27,13 @@ type Chunked struct {
 func (c *Chunked) Read(p []byte) (int, error) {
 	c.Reads++
 	limit := len(c.Data)
-	failing := c.FailErr != nil && c.FailAt >= 0 && c.FailAt <= len(c.Data)
+	failing := c.FailErr != nil && c.FailAt >= 0 && c.FailAt <= len(c.Data) && !(c.FailOnce && c.failed)
 	if failing {
 		limit = c.FailAt
 	}
 	if c.pos >= limit {
 		if failing {
+			c.failed = true
 			return 0, c.FailErr
 		}
 		return 0, io.EOF
@@ -60,6 +63,7 @@ func (c *Chunked) Read(p []byte) (int, error) {
 	c.pos += n
 	if c.pos == limit {
 		if failing && c.FailWith {
+			c.failed = true
 			return n, c.FailErr
 		}
 		if !failing && c.EOFWith {
